@@ -30,14 +30,19 @@
      if newV == 0 { old := wg.wChan.Swap(&closedChan) Add.1     OA1 n
         if old != &closedChan { close( *old) } }     Add.2      OA2 x n
      else if delta > 0 && newV == delta {
-        newChan := make(chan struct{})                          (id drawn in the OA0 step)
-        if !wg.wChan.CompareAndSwap(&closedChan,&newChan) Add.3 OA3 nw n
-           { close(newChan) } }                      Add.4      OA4 nw n
+        newChan := make(chan struct{})                          (no id yet: see below)
+        if !wg.wChan.CompareAndSwap(&closedChan,&newChan) Add.3 OA3 n
+           { close(newChan) } }                      Add.4      OA4 n
      return newV
      Wait: for { count := wg.count.Load()            Wait.0     OW0
                  wgChan := wg.wChan.Load()           Wait.1     OW1 c
                  if count == 0 || (count > 0 && wgChan != &closedChan) { return *wgChan } }
      Count(): wg.count.Load()                        Count.0    OC0
+
+   make(chan) yields a channel without a name; it is named (next unused id) when it first
+   escapes: when a successful CAS publishes it, or when it is closed.  An unpublished channel
+   is unobservable, so this is the same behaviour as naming it at make; it is also how the
+   denotation of the IR (Base/ConcIR.v, WGDenote.v) treats make.
 
    One micro-step = one shared-memory operation = one vsched.Yield site of the instrumented
    real code; [wg_site] gives the site (100*function + index; Add=1, Wait=2, Count=3).      *)
@@ -130,8 +135,8 @@ Inductive loc_o :=
 | OA0                          (* before count.Add *)
 | OA1 (n : Z)                  (* before wChan.Swap(&closedChan) *)
 | OA2 (x : nat) (n : Z)        (* before close( *oldChan) *)
-| OA3 (nw : nat) (n : Z)       (* before wChan.CompareAndSwap(&closedChan, &newChan) *)
-| OA4 (nw : nat) (n : Z)       (* before close(newChan) *)
+| OA3 (n : Z)                  (* before wChan.CompareAndSwap(&closedChan, &newChan) *)
+| OA4 (n : Z)                  (* before close(newChan) *)
 | OW0                          (* before count.Load *)
 | OW1 (c : Z)                  (* before wChan.Load *)
 | OC0.
@@ -149,16 +154,18 @@ Definition wgo_mstep (c : call) (l : loc_o) (s : shared_o) : shared_o * (loc_o +
       let n := ocnt s + d in
       if Z.eqb n 0 then (SharedO n (owch s) (oclosed s) (onextc s), inl (OA1 n))
       else if (0 <? d) && Z.eqb n d then
-        (SharedO n (owch s) (oclosed s) (S (onextc s)), inl (OA3 (onextc s) n))
+        (SharedO n (owch s) (oclosed s) (onextc s), inl (OA3 n))
       else (SharedO n (owch s) (oclosed s) (onextc s), inr (RInt n))
   | CAdd d, OA1 n =>
       let s' := SharedO (ocnt s) 0%nat (oclosed s) (onextc s) in
       if Nat.eqb (owch s) 0 then (s', inr (RInt n)) else (s', inl (OA2 (owch s) n))
   | CAdd d, OA2 x n => o_close x n s
-  | CAdd d, OA3 nw n =>
-      if Nat.eqb (owch s) 0 then (SharedO (ocnt s) nw (oclosed s) (onextc s), inr (RInt n))
-      else (s, inl (OA4 nw n))
-  | CAdd d, OA4 nw n => o_close nw n s
+  | CAdd d, OA3 n =>
+      if Nat.eqb (owch s) 0
+      then (SharedO (ocnt s) (onextc s) (oclosed s) (S (onextc s)), inr (RInt n))
+      else (s, inl (OA4 n))
+  | CAdd d, OA4 n =>
+      (SharedO (ocnt s) (owch s) (onextc s :: oclosed s) (S (onextc s)), inr (RInt n))
   | CWait, OW0 => (s, inl (OW1 (ocnt s)))
   | CWait, OW1 c =>
       if Z.eqb c 0 || ((0 <? c) && negb (Nat.eqb (owch s) 0)) then (s, inr (RChan (owch s)))
@@ -171,7 +178,7 @@ Definition wgo_observe (s : shared_o) : obs := (ocnt s, oclosed s).
 
 Definition wgo_site (c : call) (l : loc_o) : nat :=
   match l with
-  | OA0 => 100 | OA1 _ => 101 | OA2 _ _ => 102 | OA3 _ _ => 103 | OA4 _ _ => 104
+  | OA0 => 100 | OA1 _ => 101 | OA2 _ _ => 102 | OA3 _ => 103 | OA4 _ => 104
   | OW0 => 200 | OW1 _ => 201 | OC0 => 300
   end%nat.
 
